@@ -235,6 +235,8 @@ def check_errprop(out, facts):
                 last = tail and idx == len(its) - 1
                 k = e[0]
                 if k in FALLIBLE:
+                    if k == 'CALLBACK' and len(e) > 3 and e[3] == 'infallible':
+                        continue
                     n_ = its[idx + 1] if idx + 1 < len(its) else None
                     if n_ is not None and n_[0] in ('?', 'ONOK'):
                         continue
